@@ -585,15 +585,18 @@ func runCkx(r *verifx.Rng, all bool) {
 // ---------------------------------------------------------------- mapping cache
 
 type mc struct {
-	c       *pcache.MappingsCache
-	fp      *[]byte
-	maxSize int64
-	maxTTL  int
-	det     bool
-	test    bool
-	added   map[string]map[int32]bool
-	saved   map[string]pcache.VerifItem // contents at the moment of the last Save that wrote the file (nil = none / unknown)
-	raw     bool                        // cache was loaded from a crafted file: value oracle off
+	c        *pcache.MappingsCache
+	fp       *[]byte
+	maxSize  int64
+	maxTTL   int
+	det      bool
+	test     bool
+	added    map[string]map[int32]bool
+	saved    map[string]pcache.VerifItem // contents at the moment of the last Save that wrote the file (nil = none / unknown)
+	raw      bool                        // cache was loaded from a crafted file: value oracle off
+	scratch  []byte                      // the one reused "receive buffer" all GetValueBytes keys are slices of
+	scratchN int
+	getN     int
 }
 
 func sortItems(items []pcache.VerifItem) {
@@ -730,10 +733,62 @@ func (x *mc) add(now uint32, pairs []pcache.MappingPair) {
 	}
 }
 
+// lookupBytes: GetValueBytes the way the agent's receive loop calls it — the key is a slice of ONE reused scratch buffer,
+// and the buffer is overwritten with other content right after the call.  The cache must not depend on the caller's
+// buffer after the call returned (Go strings are values; the model has no aliasing).
+func (x *mc) lookupBytes(ts uint32, key string) (int32, bool) {
+	if x.scratch == nil {
+		x.scratch = make([]byte, 0, 1<<17)
+	}
+	x.scratch = append(x.scratch[:0], key...)
+	v, ok := x.c.GetValueBytes(ts, x.scratch[:len(key)])
+	before, _, _, _ := stLine(x.c)
+	// the next packet arrives into the same buffer
+	x.scratchN++
+	for i := range x.scratch {
+		switch x.scratchN % 3 {
+		case 0:
+			x.scratch[i] ^= 0x55
+		case 1:
+			x.scratch[i] = 'z' - x.scratch[i]%26
+		default:
+			x.scratch[i] = byte(i*7 + x.scratchN)
+		}
+	}
+	x.scratch = append(x.scratch, "next-packet-bytes"...)
+	after, _, _, _ := stLine(x.c)
+	if before != after {
+		h.Viol("key-aliases-caller-buffer", "GetValueBytes(%q): overwriting the caller's buffer after the call changed the cache: %s -> %s", key, before, after)
+	}
+	return v, ok
+}
+
 func (x *mc) get(ts uint32, key string) {
 	h.Op("mc get %d %s", ts, btok([]byte(key)))
 	guard(func() {
-		v, ok := x.c.GetValue(ts, key)
+		// which variant performs the access-time refresh (slow path) alternates; the other one then sees the refreshed entry
+		x.getN++
+		bytesFirst := x.getN%2 == 1
+		var v, v2 int32
+		var ok, ok2 bool
+		if bytesFirst {
+			for _, it := range x.snapshotMap() {
+				if it.Str == key && it.AccessTS < ts {
+					h.Stat("mc.get.bytes-refresh", 1)
+				}
+			}
+			v2, ok2 = x.lookupBytes(ts, key)
+			v, ok = x.c.GetValue(ts, key)
+		} else {
+			v, ok = x.c.GetValue(ts, key)
+			v2, ok2 = x.lookupBytes(ts, key)
+		}
+		if ok2 != ok || v2 != v {
+			h.Viol("cache-getbytes-differs", "GetValueBytes(%q) = %d,%v but GetValue = %d,%v (bytes variant first: %v)", key, v2, ok2, v, ok, bytesFirst)
+		}
+		if bytesFirst {
+			v, ok = v2, ok2 // the observation is what the variant that did the work returned
+		}
 		if ok {
 			h.Obs("get %d", v)
 			h.Stat("mc.get.hit", 1)
@@ -748,10 +803,6 @@ func (x *mc) get(ts uint32, key string) {
 		} else {
 			h.Obs("get miss")
 			h.Stat("mc.get.miss", 1)
-		}
-		v2, ok2 := x.c.GetValueBytes(ts, []byte(key))
-		if ok2 != ok || v2 != v {
-			h.Viol("cache-getbytes-differs", "GetValueBytes(%q) = %d,%v but GetValue = %d,%v", key, v2, ok2, v, ok)
 		}
 		x.obs("get")
 	})
